@@ -2080,3 +2080,93 @@ for _P, _R in (("C07", "R7.12"), ("C05", "R5.14")):
       "        end_event_to_event_lists_used = end_event_to_event_lists\n",
       "    end_event_to_event_lists_used = end_event_to_event_lists or {}\n",
       "`or {}` instead of the None test")
+
+# ============================================================ wave h (C08: chain decision as a guard clause)
+_CH_OLD = '''        group_first_event = group[0]
+        if max_timestamp < group_first_event.start_timestamp:
+            ordered_groups_async.append(group)
+        else:
+            ordered_groups_async[-1].extend(group)
+        max_timestamp = max(
+            max_timestamp, max(event.end_timestamp for event in group)
+        )'''
+M("C08", "continue-skips-running-max", SEQ, _CH_OLD,
+  '''        if max_timestamp < group[0].start_timestamp:
+            ordered_groups_async.append(group)
+            continue
+        ordered_groups_async[-1].extend(group)
+        max_timestamp = max(
+            max_timestamp, max(event.end_timestamp for event in group)
+        )''', "R8.1", "early continue on the new-chain arm skips the running "
+  "maximum: the window end freezes after the first gap (seed C08-h)")
+T("C08", "twin-chain-guard-clause", SEQ, _CH_OLD,
+  '''        if max_timestamp < group[0].start_timestamp:
+            ordered_groups_async.append(group)
+            max_timestamp = max(
+                max_timestamp, max(event.end_timestamp for event in group)
+            )
+            continue
+        ordered_groups_async[-1].extend(group)
+        max_timestamp = max(
+            max_timestamp, max(event.end_timestamp for event in group)
+        )''', "guard clause with the update on both paths")
+
+# ============================================================ wave h (C11/C09: exact window bounds)
+for _P, _R in (("C11", "R11.4"), ("C09", "R9.6")):
+    M(_P, "window-bounds-float", BASE,
+      "    time_buffer_in_nanoseconds = time_buffer * 60 * 1000000000",
+      "    time_buffer_in_nanoseconds = time_buffer * 60 * 1e9", _R,
+      "float64 bounds: ns timestamps rounded to multiples of 256 (seed C11-h)")
+    M(_P, "window-bounds-division", BASE,
+      "    time_buffer_in_nanoseconds = time_buffer * 60 * 1000000000",
+      "    time_buffer_in_nanoseconds = time_buffer * 60 * 10**12 / 1000", _R,
+      "true division makes the bounds float")
+    T(_P, "twin-window-bounds-pow", BASE,
+      "    time_buffer_in_nanoseconds = time_buffer * 60 * 1000000000",
+      "    time_buffer_in_nanoseconds = time_buffer * 60 * 10**9",
+      "integer power")
+
+# ============================================================ wave h (C10/C15)
+M("C10", "filter-on-operational-error", SQL,
+  '''            self.check_and_filter_non_unique_nodes_and_associations()
+
+    def batch_insert_objects''',
+  '''            self.check_and_filter_non_unique_nodes_and_associations()
+        except OperationalError:
+            self.check_and_filter_non_unique_nodes_and_associations()
+
+    def batch_insert_objects''', "R10.3",
+  "transient failure at the link insert retried through the duplicate "
+  "filter: links of the batch are dropped (seed C10-h)")
+_LOOKUP_OLD = '''        with self.session as session:
+            existing_event_id_cells = (
+                session.query(NodeModel.event_id)
+                .filter(NodeModel.event_id.in_(event_ids_to_check))
+                .all()
+            )
+            return {str(row[0]) for row in existing_event_id_cells}
+'''
+_LOOKUP_CHUNK = '''        event_ids = list(event_ids_to_check)
+        existing_event_ids: set[str] = set()
+        with self.session as session:
+            for start in range(0, len(event_ids), 999):
+                existing_event_id_cells = (
+                    session.query(NodeModel.event_id)
+                    .filter(
+                        NodeModel.event_id.in_(
+                            event_ids[start:%s]
+                        )
+                    )
+                    .all()
+                )
+                existing_event_ids.update(
+                    str(row[0]) for row in existing_event_id_cells
+                )
+        return existing_event_ids
+'''
+for _P, _R in (("C10", "R10.6"), ("C15", "R15.7")):
+    M(_P, "chunked-lookup-wrong-slice", SQL, _LOOKUP_OLD,
+      _LOOKUP_CHUNK % "999", _R,
+      "every chunk after the first is empty (seed C15-h)")
+    T(_P, "twin-chunked-lookup", SQL, _LOOKUP_OLD,
+      _LOOKUP_CHUNK % "start + 999", "correctly chunked lookup")
